@@ -17,6 +17,7 @@ import MinizProof.Props.C03
 import MinizProof.Lemmas.EncDynamic
 import MinizProof.Lemmas.EncStored
 import MinizProof.Lemmas.DeflRle
+import MinizProof.Lemmas.HuffLimit
 set_option maxRecDepth 1000000
 open Fin'
 
@@ -315,6 +316,62 @@ theorem dynamic_block_of_the_model_is_conforming (final : Bool) (litLens distLen
     (heob : 1 ≤ litLens.getD 256 0) :
     StdBlock (encDynamic final (header litLens distLens clens) toks) :=
   .dynamic final _ toks (model_header_ok litLens distLens clens hl hd h15 hcs hc8 hcv hcodes hlv hdv heob)
+
+
+/-! ### The Huffman builder's length limiting (`enforce_max_code_size`) -/
+open Model.HuffLimit in
+/-- LENGTH LIMITING KEEPS THE CODE COMPLETE — `HuffmanOxide::enforce_max_code_size` (model
+    `Model.HuffLimit.enforce`, tied to the source by op `HLIM`: every call the real `optimize_table`
+    made in the run, plus generated histograms) for EVERY histogram of a prefix code: `n[i]` codes of
+    length `i` (`n[0]` unused, any number of lengths, counts ≥ 0, Kraft sum at most 1), `len` = number
+    of codes ≥ 2 and at most `2^max`. Afterwards the counts of the lengths `1..max` are non-negative
+    and still add up to `len` (no code lost, none longer than the limit is counted there), the
+    Kraft sum of those lengths is at most 1, and it is EXACTLY 1 whenever the histogram was complete
+    before — which is what a Huffman tree over ≥ 2 symbols gives — so the limited code is again a
+    complete prefix code, the only kind (besides the single-code case) an RFC 1951 decoder accepts.
+    Everything outside the lengths `1..max` is left as it is. Induction over the loop with the
+    invariant "counts ≥ 0, the levels above the deepest weigh at most a full tree, at most `2^max`
+    codes": each round lowers the weight by exactly one. -/
+theorem length_limiting_restores_a_complete_code (n : List Int) (len max : Nat) (h2 : 2 ≤ len) (hmax : 1 ≤ max)
+    (hlen : max + 1 ≤ n.length) (hnn : ∀ x ∈ n, 0 ≤ x) (hcnt : (n.drop 1).sum = len)
+    (hfit : (len : Int) ≤ 2 ^ max) (hk : kraft (n.drop 1) ≤ 2 ^ (n.length - 1)) :
+    ∃ lv, enforce n len max = n.take 1 ++ lv ++ n.drop (max + 1) ∧ lv.length = max ∧ (∀ x ∈ lv, 0 ≤ x) ∧
+      lv.sum = len ∧ kraft lv ≤ 2 ^ max ∧
+      (kraft (n.drop 1) = 2 ^ (n.length - 1) → kraft lv = 2 ^ max) := by
+  have hA : (n.take (max + 1)).drop 1 = (n.drop 1).take max := by
+    rw [List.drop_take]; rfl
+  have hB : n.drop (max + 1) = (n.drop 1).drop max := by
+    rw [List.drop_drop, Nat.add_comm]
+  have hAB : (n.take (max + 1)).drop 1 ++ n.drop (max + 1) = n.drop 1 := by
+    rw [hA, hB, List.take_append_drop]
+  have hAl : ((n.take (max + 1)).drop 1).length = max := by
+    rw [hA, List.length_take, List.length_drop]; omega
+  have hABl : ((n.take (max + 1)).drop 1 ++ n.drop (max + 1)).length = n.length - 1 := by
+    rw [hAB, List.length_drop]
+  obtain ⟨s1, s2, s3, s4, s5, _⟩ := enforceLv_spec max ((n.take (max + 1)).drop 1) (n.drop (max + 1)) hAl hmax
+    (fun x hx => hnn x (List.mem_of_mem_take (List.mem_of_mem_drop hx)))
+    (fun x hx => hnn x (List.mem_of_mem_drop hx))
+    (by rw [← List.sum_append, hAB, hcnt]; exact hfit)
+    (by rw [hABl, hAB]; exact hk)
+  refine ⟨enforceLv max ((n.take (max + 1)).drop 1) (n.drop (max + 1)), ?_, s1, s2, ?_, s4, ?_⟩
+  · unfold enforce
+    rw [if_neg (by omega)]
+  · rw [s3, ← List.sum_append, hAB, hcnt]
+  · intro hfull
+    exact s5 (by rw [hABl, hAB]; exact hfull)
+
+open Model.HuffLimit in
+/-- … and a histogram that is already within the limit and not over-full is not touched. -/
+theorem length_limiting_leaves_a_fitting_code_alone (max : Nat) (A : List Int) (hA : A.length = max) (h1 : 1 ≤ max)
+    (hnA : ∀ x ∈ A, 0 ≤ x) (hfit : A.sum ≤ 2 ^ max) (hk : kraft A < 2 ^ max) :
+    enforceLv max A [] = A :=
+  (enforceLv_spec max A [] hA h1 hnA (fun _ h => by simp at h) (by simpa using hfit)
+    (by rw [List.append_nil, hA]; omega)).2.2.2.2.2 rfl hk
+
+-- 5 codes: one of length 1, one of length 2, one of length 3, two of length 4 (complete); limit 3:
+-- the two 4-bit codes are folded into length 3 (weight 9 of 8) and one round repairs it
+open Model.HuffLimit in
+example : enforce [0, 1, 1, 1, 2] 5 3 = [0, 1, 0, 4, 2] ∧ kraft [1, 0, 4] = 2 ^ 3 ∧ kraft [1, 1, 1, 2] = 2 ^ 4 := by decide
 
 -- the packer on a list with a long zero run, a run of equal sizes and a short tail
 open Model.Core Model.Rle in
